@@ -176,6 +176,8 @@ CHECKS["C04"] = {
         H("cff", ["c04.go", "t2ref.go"], "VerifH_C04_glyph", ["compiled"], quick={"params": {"maxsegments": 1, "frac": 0, "coordlimit": 120, "shapes": 8}, "timeout": 280, "shards": 8}, thorough={"params": {"maxsegments": 2, "frac": 4, "coordlimit": 8000, "shapes": 12, "symwidths": 1}, "timeout": 3000, "shards": 12}),
         H("cff", ["c04.go", "t2ref.go"], "VerifH_C04_stems", ["compiled"], quick={"params": {"stemchoices": 5, "maskkinds": 2}, "timeout": 280, "shards": 5}, thorough={"params": {"stemchoices": 7, "maskkinds": 4, "symv": 1}, "timeout": 2400, "shards": 7}),
         H("cff", ["c04.go", "t2ref.go"], "VerifH_C04_long", ["compiled"], quick={"timeout": 280}),
+        H("cff", ["c04.go", "t2ref.go"], "VerifH_C04_flex", ["compiled"], quick={"params": {"flexrange": 2}, "timeout": 280}, thorough={"params": {"flexrange": 6}, "timeout": 2400}),
+        H("cff", ["c04.go", "t2ref.go"], "VerifH_C04_accum", ["compiled"], quick={"params": {"accumextra": 0}, "timeout": 280}, thorough={"params": {"accumextra": 2}, "timeout": 2400}),
         H("cff", ["c04.go", "t2ref.go"], "VerifH_C04_bigdelta", [], quick={"timeout": 200}),
     ],
     "bounds": {"quick": "encodeInt: every int16; encodeNumber: every x on a 2^-18 grid in (-32767,32767); glyphs: moveto + 1 further segment (line or move; curves in the thorough tier) with integer coordinates symbolic in [-120,120], symbolic width and default/nominal widths; stems {0,1,2,23,24} per direction with symbolic first edge, no mask or hintmask first [thorough: cntrmask, mask after the first move]; runs of 23..29 lines / 7..9 curves with two solver-chosen steps",
@@ -206,6 +208,7 @@ CHECKS["C02"] = {
         H("opentype/classdef", "c08.go", "VerifH_C08_classdef_bytes", ["accepted"], quick={"params": {"maxlen": 8}, "timeout": 280}, thorough={"params": {"maxlen": 16}, "timeout": 2400}),
         H("opentype/gdef", "c08.go", "VerifH_C02_gdef", ["accepted"], quick={"params": {"maxwords": 2}, "timeout": 280, "shards": 3}, thorough={"params": {"maxwords": 5}, "timeout": 2400, "shards": 6}),
         H("opentype/gtab", _S7, "VerifH_C07_reader", ["accepted"], quick={"params": {"maxwords": 3}, "timeout": 280, "shards": 6}, thorough={"params": {"maxwords": 8}, "timeout": 2400, "shards": 6}),
+        H(".", ["c02.go", "c16.go", "common.go"], "VerifH_C02_fontread", ["accepted", "rejected"], quick={"params": {"window": 2, "stride": 2, "nshards": 8}, "timeout": 280, "shards": 8}, thorough={"params": {"window": 3, "stride": 1, "nshards": 14}, "timeout": 2400, "shards": 14}),
     ],
     "bounds": {"quick": "arbitrary bytes per decoder, every implicit runtime check is an obligation: header.Read 12+16*1(+4) bytes; kern.Read <=2 subtables x <=1 pair; cmap.Decode <=1 encoding record + 10..18 byte body, then Get/Lookup/CodeRange/GetBest; cmap formats 0/6/12; glyf.Decode 16 bytes split into 2 glyphs (both loca formats) + SimpleGlyph.Decode; hmtx 36+8; head 54; maxp <=32; OS/2 68..100; post 32..36; name 6+12+2; CFF: readIndex <=8 bytes, readCharset <=8, readFDSelect <=9, readPrivate with arbitrary int32 (size, offset) over an 8-byte file under a 1 MiB allocation obligation, coverage and class definition tables <=12 bytes, GDEF tables 12..16 bytes, GSUB subtable readers 6..12 bytes followed by Apply, DICT <=2 bytes, Type 2 charstrings <=3 bytes",
                "thorough": "larger byte bounds per decoder (see harness list)"},
